@@ -46,6 +46,11 @@ def step (line : String) : String :=
       else if proto = "tcp" then withTable tbl fun I => showFwd (forwardTcp I b)
       else "bad-op"
     | none => "bad-op"
+  | ["cnames", ns] =>                -- the reference compressing encoder: names `l.l.l,l.l,-` (hex labels, `-` = root)
+    let parseName (s : String) : Option (List Bytes) := if s = "-" then some [] else (s.splitOn ".").mapM hexOr
+    match (ns.splitOn ",").mapM parseName with
+    | some names => showBytes (cnames [] 0 names)
+    | none => "bad-op"
   | ["live", h] =>
     match hexOr h with
     | some b => if liveCheck b then "1" else "0"
